@@ -6,7 +6,7 @@ open HyperModel.Crash
 
 def list (xs : List Nat) : String := if xs.isEmpty then "-" else ",".intercalate (xs.map toString)
 
-def fullBlock : List Ev := [.writeResults, .commitState, .notify]
+def fullBlock : List Ev := [.writeResults, .commitState, .notifyA, .notifyB]
 
 /-- events of the harness' crash child: accept `a` blocks, process `1..k-1`, stop block `k` at point `p` -/
 def crashEvents (a p k : Nat) : List Ev :=
@@ -15,10 +15,10 @@ def crashEvents (a p k : Nat) : List Ev :=
   ++ fullBlock.take (p - 2)
 
 def showOutcome : Outcome → String
-  | .ok la re => s!"restart=ok la={la} re={list re}"
-  | .errIndexAhead => "restart=err-index-ahead la=- re=-"
-  | .errResults => "restart=err-results-height la=- re=-"
-  | .panicNil => "restart=panic-nil la=- re=-"
+  | .ok la re => s!"restart=ok la={la} re={list re} reB={list re}"
+  | .errIndexAhead => "restart=err-index-ahead la=- re=- reB=-"
+  | .errResults => "restart=err-results-height la=- re=- reB=-"
+  | .panicNil => "restart=panic-nil la=- re=- reB=-"
 
 def step (st : Option Nat) (ws : List String) : Option Nat × String :=
   match ws with
@@ -26,16 +26,16 @@ def step (st : Option Nat) (ws : List String) : Option Nat × String :=
     match n.toNat? with
     | some n =>
       if n < 1 ∨ n > 24 then (st, "bad-op") else
-      let node := HyperModel.Crash.run Node.init (crashEvents n 5 n)
-      (some n, s!"ok n={n} notified={list node.notified}")
+      let node := HyperModel.Crash.run Node.init (crashEvents n 6 n)
+      (some n, s!"ok n={n} notified={list node.notifiedA} notifiedB={list node.notifiedB}")
     | none => (st, "bad-op")
   | ["crash", a, p, k] =>
     match st, a.toNat?, p.toNat?, k.toNat? with
     | some n, some a, some p, some k =>
-      if k < 1 ∨ k > a ∨ a > n ∨ p < 2 ∨ p > 5 ∨ a - k > 15 then (st, "bad-op") else
+      if k < 1 ∨ k > a ∨ a > n ∨ p < 2 ∨ p > 6 ∨ a - k > 16 then (st, "bad-op") else
       let node := HyperModel.Crash.run Node.init (crashEvents a p k)
       let res := match node.p.res with | some r => toString r | none => "-1"
-      (st, s!"idx={node.p.idx} st={node.p.st} res={res} pre={list node.notified} " ++ showOutcome (restart node.p))
+      (st, s!"idx={node.p.idx} st={node.p.st} res={res} pre={list node.notifiedA} preB={list node.notifiedB} " ++ showOutcome (restart node.p))
     | _, _, _, _ => (st, "bad-op")
   | _ => (st, "bad-op")
 
